@@ -147,6 +147,29 @@ func TestNodesimTwoChain(t *testing.T) {
 		_ = lib.Unmarshal(r.Proposal.Block, blk)
 		t.Logf("root h=%d txs=%d took %v", r.Height, len(blk.Transactions), time.Since(t0))
 	}
+	// self-test of the root-chain manager mock: its answers equal what the root chain pushes as RootChainInfo
+	for h := uint64(1); h <= ra.Height(); h++ {
+		s.Activate(ra)
+		info, e := ra.C.FSM.LoadRootChainInfo(2, h)
+		if e != nil {
+			t.Fatal(e)
+		}
+		vs, e := na.RC.GetValidatorSet(1, 2, h)
+		if e != nil || !bytes.Equal(mustBz(vs.ValidatorSet), mustBz(info.ValidatorSet)) {
+			t.Fatalf("mock validator set at root height %d differs from RootChainInfo: %v", h, e)
+		}
+		lw, e := na.RC.GetLotteryWinner(1, h, 2)
+		if e != nil || !bytes.Equal(mustBz(lw), mustBz(info.LotteryWinner)) {
+			t.Fatalf("mock lottery winner at root height %d differs from RootChainInfo: %v", h, e)
+		}
+		ob, e := na.RC.GetOrders(1, h, 2)
+		if e != nil || !bytes.Equal(mustBz(ob), mustBz(info.Orders)) {
+			t.Fatalf("mock order book at root height %d differs from RootChainInfo: %v", h, e)
+		}
+	}
+	if got := na.RC.GetHeight(1); got != ra.Height() {
+		t.Fatalf("mock root height %d != %d", got, ra.Height())
+	}
 	sa, _ := na.Scan()
 	sb, _ := nb.Scan()
 	if ScanDigest(sa) != ScanDigest(sb) {
@@ -155,4 +178,12 @@ func TestNodesimTwoChain(t *testing.T) {
 	if !bytes.Equal(storemodel.Root(sa), na.LastHeader().StateRoot) {
 		t.Fatal("nested root mismatch")
 	}
+}
+
+func mustBz(m any) []byte {
+	bz, err := lib.Marshal(m)
+	if err != nil {
+		panic(err)
+	}
+	return bz
 }
